@@ -657,7 +657,7 @@ impl Interp {
 						sc.spawn(|| {
 							let _ = tx.send(db.process_commits());
 						});
-						match rx.recv_timeout(std::time::Duration::from_secs(20)) {
+						match rx.recv_timeout(std::time::Duration::from_secs(4)) {
 							Ok(r) => Some(r),
 							Err(_) => {
 								blocked = true;
